@@ -26,11 +26,23 @@ open OPM.RunState
 
 /-- Pause records the output values in effect immediately before it, under the current run id, and puts
     the outputs into their safe state. -/
-theorem pause_captures (cfg : Cfg) (c : Core) :
+theorem pause_captures (cfg : Cfg) (c : Core) (h : cfg.pauseOnce = false ∨ c.paused = false) :
     (c.pause cfg).prev = some (capture cfg.safes c.outs) ∧
     (c.pause cfg).lastCap = some (capture cfg.safes c.outs) ∧
     (c.pause cfg).capRun = c.runId ∧ (c.pause cfg).capLive = true ∧
-    (c.pause cfg).outs = applySafe cfg.safes c.outs := ⟨rfl, rfl, rfl, rfl, rfl⟩
+    (c.pause cfg).outs = applySafe cfg.safes c.outs := by
+  unfold Core.pause
+  rcases h with h | h <;> simp [h]
+
+/-- when a pause *begins* (the engine was not paused) the Pause body records what it captured as the onset
+    capture; a Pause body that runs while already paused never changes the onset capture -/
+theorem pause_onset (cfg : Cfg) (c : Core) :
+    (c.paused = false → (c.pause cfg).onsetCap = some (capture cfg.safes c.outs)) ∧
+    (c.paused = true → (c.pause cfg).onsetCap = c.onsetCap) := by
+  unfold Core.pause
+  constructor
+  · intro h; simp [h]
+  · intro h; split <;> simp [h]
 
 /-- Unpause applies the stored values if there are any, nothing otherwise, and forgets them. -/
 theorem unpause_applies (c : Core) :
@@ -101,7 +113,16 @@ theorem prevOK_step (cfg : Cfg) (hp : cfg.prevFix = true) (pm : Perm) (a : A) (a
     (_hen : act.enabled cfg pm a) : PrevOK (act.apply cfg a) := by
   obtain ⟨h⟩ := h
   cases act
-  case pause => exact ⟨fun v hv => by simp [Act.apply, Core.pause] at hv ⊢; exact hv⟩
+  case pause =>
+    refine ⟨?_⟩
+    simp only [Act.apply, Core.pause]
+    split
+    · exact h
+    · intro v hv; simp at hv ⊢; exact hv
+  case userReq i =>
+    refine ⟨?_⟩
+    simp only [Act.apply, Core.userRequest]
+    split <;> exact h
   case unpause => exact ⟨fun v hv => by simp [Act.apply, Core.unpause] at hv⟩
   case startRun => exact ⟨fun v hv => by simp [Act.apply, Core.startRun, Core.clearPrev, hp] at hv⟩
   case restartMid => exact ⟨fun v hv => by simp [Act.apply, Core.restartMid, Core.clearPrev, hp] at hv⟩
@@ -118,8 +139,10 @@ theorem prevOK_step (cfg : Cfg) (hp : cfg.prevFix = true) (pm : Perm) (a : A) (a
     refine ⟨?_⟩
     simp only [Act.apply, Core.setError]
     split
-    · intro v hv; simp at hv ⊢; exact hv
     · exact h
+    · split
+      · intro v hv; simp at hv ⊢; exact hv
+      · exact h
   all_goals exact ⟨h⟩
 
 theorem prevOK_init (cfg : Cfg) (outs : List Int) : PrevOK (abs (init cfg outs)) := by
@@ -176,7 +199,9 @@ theorem error_while_paused_keeps_snapshot (cfg : Cfg) (c : Core) (hp : c.paused 
     (c.setError cfg).lastCap = c.lastCap ∧ (c.setError cfg).capRun = c.capRun ∧
     (c.setError cfg).capLive = c.capLive ∧ (c.setError cfg).paused = true := by
   unfold Core.setError
-  simp [hp]
+  split
+  · simp [hp]
+  · simp [hp]
 
 /-- nothing is stored while the engine is not paused -/
 structure NoSnap (a : A) : Prop where
@@ -186,7 +211,18 @@ theorem noSnap_step (cfg : Cfg) (hp : cfg.prevFix = true) (pm : Perm) (a : A) (a
     (_hen : act.enabled cfg pm a) : NoSnap (act.apply cfg a) := by
   obtain ⟨h⟩ := h
   cases act
-  case pause => exact ⟨fun hq => by simp [Act.apply, Core.pause] at hq⟩
+  case pause =>
+    refine ⟨fun hq => ?_⟩
+    simp only [Act.apply, Core.pause] at hq ⊢
+    split at hq
+    · rename_i hc
+      simp only [Bool.and_eq_true] at hc
+      simp [hc.2] at hq
+    · simp at hq
+  case userReq i =>
+    refine ⟨?_⟩
+    simp only [Act.apply, Core.userRequest]
+    split <;> exact h
   case unpause => exact ⟨fun _ => rfl⟩
   case startRun => exact ⟨fun _ => by simp [Act.apply, Core.startRun, Core.clearPrev, hp]⟩
   case restartMid => exact ⟨fun _ => by simp [Act.apply, Core.restartMid, Core.clearPrev, hp]⟩
@@ -197,8 +233,14 @@ theorem noSnap_step (cfg : Cfg) (hp : cfg.prevFix = true) (pm : Perm) (a : A) (a
     split <;> rfl
   case error =>
     refine ⟨fun hq => ?_⟩
-    simp only [Act.apply, Core.setError] at hq
-    split at hq <;> simp at hq
+    simp only [Act.apply, Core.setError] at hq ⊢
+    split
+    · rename_i hc
+      simp only [hc, if_true] at hq
+      exact h hq
+    · rename_i hc
+      simp only [hc, Bool.false_eq_true, if_false] at hq
+      split at hq <;> simp at hq
   case write => refine ⟨?_⟩; simp only [Act.apply, Core.writeImage]; split <;> exact h
   case ev e =>
     cases e <;> refine ⟨?_⟩ <;> simp only [Act.apply, Core.event] <;> first | exact h | (split <;> exact h)
@@ -214,6 +256,90 @@ theorem unpause_without_pause_changes_nothing (cfg : Cfg) (hp : cfg.prevFix = tr
   have hn : NoSnap a := h.inv (fun b act => noSnap_step cfg hp _ b act)
     ⟨fun _ => by unfold init; split <;> rfl⟩
   exact ⟨hn.ok hnp, (unpause_applies a.core).2.2.1 (hn.ok hnp)⟩
+
+/-! ## "The most recent Pause" = the moment the pause began
+
+The statements above read "the most recent Pause" as the most recent *execution of a Pause body* (`lastCap`).
+A Pause body can run while the engine is already paused (two Pause requests accepted before one tick; a user
+Pause and a method Pause in one tick; a queued Pause after an error pause): it then captures the *safe* values
+and the outputs from before the pause are lost. Read as the property means it — the values in effect before
+the pause *began* (`onsetCap`, written only when `paused` goes from false to true) — the statement is
+`C09_full`; it is false of the code as it is (`C09_counterexample`), true with the repair `Cfg.pauseOnce`
+(/verif/fixes/C09-double-pause-capture.diff: a Pause while already paused keeps the snapshot, `C09_repaired`);
+`C09_partial` is what holds of the code as it is. -/
+
+structure PrevOnset (a : A) : Prop where
+  ok : ∀ v, a.core.prev = some v → a.core.onsetCap = some v ∧ a.core.capRun = a.core.runId
+  nosnap : a.core.paused = false → a.core.prev = none
+
+/-- **Full statement.** In every state the engine can be in (any operation sequence, errors included): the
+    stored values, if any, are exactly what was captured when the current pause began, under the current run
+    id — so Unpause (`unpause_applies`) writes back the output values from immediately before the pause. -/
+def C09_full (cfg : Cfg) : Prop :=
+  ∀ (outs : List Int) (a : A), Reach cfg ⟨true, true, true⟩ (abs (init cfg outs)) a → PrevOnset a
+
+theorem prevOnset_step (cfg : Cfg) (hp : cfg.prevFix = true) (ho : cfg.pauseOnce = true) (pm : Perm) (a : A)
+    (act : Act) (h : PrevOnset a) (_hen : act.enabled cfg pm a) : PrevOnset (act.apply cfg a) := by
+  obtain ⟨h, hn⟩ := h
+  have hns := (noSnap_step cfg hp pm a act ⟨hn⟩ _hen).ok
+  refine ⟨?_, hns⟩
+  cases act
+  case pause =>
+    simp only [Act.apply, Core.pause, ho, Bool.true_and]
+    by_cases hq : a.core.paused = true
+    · simp only [hq, if_true]; exact h
+    · simp only [hq, Bool.false_eq_true, if_false]
+      intro v hv; simp at hv ⊢; exact hv
+  case userReq i =>
+    simp only [Act.apply, Core.userRequest]
+    split <;> exact h
+  case unpause => exact fun v hv => by simp [Act.apply, Core.unpause] at hv
+  case startRun => exact fun v hv => by simp [Act.apply, Core.startRun, Core.clearPrev, hp] at hv
+  case restartMid => exact fun v hv => by simp [Act.apply, Core.restartMid, Core.clearPrev, hp] at hv
+  case restartFinish => exact fun v hv => by simp [Act.apply, Core.restartFinish, Core.clearPrev, hp] at hv
+  case stopFinish =>
+    intro v hv
+    simp only [Act.apply, Core.stopFinish, Core.writeImage, Core.clearPrev, hp] at hv
+    split at hv <;> simp at hv
+  case write => simp only [Act.apply, Core.writeImage]; split <;> exact h
+  case ev e =>
+    cases e <;> simp only [Act.apply, Core.event] <;> first | exact h | (split <;> exact h)
+  case clock inc => simp only [Act.apply, Core.clock]; split <;> exact h
+  case error =>
+    simp only [Act.apply, Core.setError]
+    split
+    · exact h
+    · split
+      · intro v hv; simp at hv ⊢; exact hv
+      · by_cases hq : a.core.paused = true
+        · simp only [hq, if_true]; exact h
+        · intro v hv
+          simp only [] at hv
+          rw [hn (by simpa using hq)] at hv; cases hv
+  all_goals exact h
+
+/-- **C09 with the double-Pause repair: the full statement holds.** -/
+theorem C09_repaired (cfg : Cfg) (hp : cfg.prevFix = true) (ho : cfg.pauseOnce = true) : C09_full cfg := by
+  intro outs a h
+  refine h.inv (fun b act => prevOnset_step cfg hp ho _ b act) ⟨fun v hv => ?_, fun _ => ?_⟩
+  · unfold init at hv; split at hv <;> simp [abs] at hv
+  · unfold init; split <;> rfl
+
+/-- After Unpause the outputs with a safe value hold exactly the values from immediately before the pause
+    began (with the repair). -/
+theorem unpause_restores_onset (cfg : Cfg) (hp : cfg.prevFix = true) (ho : cfg.pauseOnce = true)
+    (outs : List Int) (a : A) (h : Reach cfg ⟨true, true, true⟩ (abs (init cfg outs)) a) :
+    ∀ v, a.core.prev = some v →
+      a.core.unpause.outs = overlay v a.core.outs ∧ a.core.onsetCap = some v ∧ a.core.capRun = a.core.runId := by
+  intro v hv
+  have hk := (C09_repaired cfg hp ho outs a h).ok v hv
+  exact ⟨(unpause_applies a.core).2.2.2 v hv, hk⟩
+
+/-- **What holds of the code as it is**: the stored values are those of the most recent *execution* of a
+    Pause body (or error pause), of the same run, not yet undone. -/
+theorem C09_partial (cfg : Cfg) (hp : cfg.prevFix = true) (outs : List Int) (a : A)
+    (h : Reach cfg ⟨true, true, true⟩ (abs (init cfg outs)) a) : PrevOK a :=
+  prevOK_reach cfg hp outs a h
 
 /-! ## The code as it is: witness; non-vacuity -/
 
@@ -255,6 +381,26 @@ example :
     let s' := run cfg s [.user .unpause, tk]
     s.core.prev = some [some 33, some 1, none] ∧ s.core.outs = [2, 1, 71] ∧
       s'.core.outs = [33, 1, 71] ∧ s'.core.prev = none := by
+  decide +kernel
+
+/-- Two Pause requests accepted before one tick (both valid at request time), then Unpause. -/
+def doublePause : List Op :=
+  [.user .start, tk, .setOut 0 33, .user .pause, .user .pause, tk]
+
+/-- **Counterexample (code as it is).** After the double Pause the stored values are the safe values 0, 1
+    although the pause began with output 0 at 33; Unpause then "restores" 0. With the repair it restores 33. -/
+theorem C09_counterexample : ¬ C09_full (repaired8 safes3) := by
+  intro h
+  have hr := h [5, 7, 9] _ (run_ref_err (cfg := repaired8 safes3) doublePause (init (repaired8 safes3) [5, 7, 9]))
+  have := (hr.ok [some 0, some 1, none] (by decide +kernel)).1
+  revert this
+  decide +kernel
+
+theorem double_pause_outputs :
+    (run (repaired8 safes3) (init (repaired8 safes3) [5, 7, 9]) (doublePause ++ [.user .unpause, tk])).core.outs
+      = [0, 1, 9] ∧
+    (run (repaired10 safes3) (init (repaired10 safes3) [5, 7, 9]) (doublePause ++ [.user .unpause, tk])).core.outs
+      = [33, 1, 9] := by
   decide +kernel
 
 /-- Non-vacuity: a timed method Pause ended early by the user; the outputs are changed; when the timer runs
